@@ -35,24 +35,28 @@ DRound(sr) == CASE sr = "dnat" -> "nat" [] sr = "dfxd" -> "fxd" [] sr = "dfxu" -
 BaseAdd(b, x, y) == IF b = "nat" THEN x + y ELSE (IF x = INEXACT \/ y = INEXACT THEN INEXACT ELSE x + y)
 BaseMul(b, x, y) == IF b = "nat" THEN x * y ELSE FxMul(b, x, y)
 
-SrZero(sr) == CASE sr = "nat" -> 0 [] sr = "mp" -> NINF [] sr = "bool" -> 0 [] IsFx(sr) -> 0 [] IsDual(sr) -> <<0, 0>>
-SrOne(sr)  == CASE sr = "nat" -> 1 [] sr = "mp" -> 0    [] sr = "bool" -> 1 [] IsFx(sr) -> FXS
+\* "mt" = (N u {INF}, max, x): the image of the Viterbi semiring under exp on natural weights
+SrZero(sr) == CASE sr = "nat" -> 0 [] sr = "mp" -> NINF [] sr = "bool" -> 0 [] sr = "mt" -> 0 [] IsFx(sr) -> 0 [] IsDual(sr) -> <<0, 0>>
+SrOne(sr)  == CASE sr = "nat" -> 1 [] sr = "mp" -> 0    [] sr = "bool" -> 1 [] sr = "mt" -> 1 [] IsFx(sr) -> FXS
                 [] sr = "dnat" -> <<1, 0>> [] sr \in {"dfxd", "dfxu"} -> <<FXS, 0>>
 SrAdd(sr, a, b) ==
   CASE sr = "nat"  -> IF a = INF \/ b = INF THEN INF ELSE a + b
     [] sr = "mp"   -> IF a >= b THEN a ELSE b
     [] sr = "bool" -> IF a = 1 \/ b = 1 THEN 1 ELSE 0
+    [] sr = "mt"   -> IF a >= b THEN a ELSE b
     [] IsFx(sr)    -> IF a = INEXACT \/ b = INEXACT THEN INEXACT ELSE a + b
     [] IsDual(sr)  -> <<BaseAdd(DBase(sr), a[1], b[1]), BaseAdd(DRound(sr), a[2], b[2])>>
 SrMul(sr, a, b) ==
   CASE sr = "nat"  -> IF a = 0 \/ b = 0 THEN 0 ELSE IF a = INF \/ b = INF THEN INF ELSE a * b
     [] sr = "mp"   -> IF a = NINF \/ b = NINF THEN NINF ELSE IF a = INF \/ b = INF THEN INF ELSE a + b
     [] sr = "bool" -> IF a = 1 /\ b = 1 THEN 1 ELSE 0
+    [] sr = "mt"   -> IF a = 0 \/ b = 0 THEN 0 ELSE IF a = INF \/ b = INF THEN INF ELSE a * b
     [] IsFx(sr)    -> FxMul(sr, a, b)
     [] IsDual(sr)  -> <<BaseMul(DBase(sr), a[1], b[1]),
                         BaseAdd(DRound(sr), BaseMul(DRound(sr), a[2], b[1]), BaseMul(DRound(sr), a[1], b[2]))>>
 SrFromInt(sr, n) ==
   CASE sr = "nat" -> n [] sr = "mp" -> (IF n > 0 THEN 0 ELSE NINF) [] sr = "bool" -> (IF n > 0 THEN 1 ELSE 0)
+    [] sr = "mt" -> (IF n > 0 THEN 1 ELSE 0)
     [] IsFx(sr) -> n * FXS
     [] sr = "dnat" -> <<n, 0>> [] sr \in {"dfxd", "dfxu"} -> <<n * FXS, 0>>
 SrLeq(sr, a, b) == a <= b      \* natural order of all three carriers with these sentinels
@@ -70,6 +74,7 @@ WeightOf(sr, g, lab, idx) ==
   CASE sr = "mp"   -> g.wmp[lab][idx]
     [] sr = "bool" -> (IF g.w[lab][idx] # 0 THEN 1 ELSE 0)
     [] sr = "nat"  -> g.w[lab][idx]
+    [] sr = "mt"   -> g.w[lab][idx]
     [] IsFx(sr)    -> g.wfx[lab][idx]          \* weights scaled by FXS
     \* dual: the derivative is taken with respect to the weight entry g.seed = [lab, idx]
     [] sr = "dnat" -> <<g.w[lab][idx], IF g.seed.lab = lab /\ g.seed.idx = idx THEN 1 ELSE 0>>
